@@ -140,3 +140,60 @@ func H_str_iter() {
 	nd_assert(pos <= s.len, "C05.iter.bound")
 	nd_reach("C05.iter")
 }
+
+func goStr(s String) string { return *(*string)(unsafe.Pointer(&s)) }
+
+// []rune(s): the same runes, in order, as Go's conversion yields - for every byte
+// string of <= 4 bytes (invalid, truncated, overlong and surrogate encodings each
+// give one U+FFFD per offending byte); len == cap is not required by the spec
+func H_str_torunes() {
+	gs := nd_string("s", 4)
+	rs, panicked := tryRunes(func() []rune { return StringToRunes(gs) })
+	nd_assert(!panicked, "C05.utf8.torunes.nopanic")
+	want := []rune(gs)
+	nd_assert(len(rs) == len(want), "C05.utf8.torunes.len")
+	for i := 0; i < len(want) && i < len(rs); i++ {
+		nd_assert(rs[i] == want[i], "C05.utf8.torunes.rune")
+	}
+	nd_reach("C05.utf8.torunes")
+}
+
+// string(rs) for every pair of rune values (invalid runes become U+FFFD)
+func H_str_fromrunes() {
+	n := nd_int("n")
+	nd_assume(0 <= n && n <= 2)
+	buf := [2]rune{nd_rune("r0"), nd_rune("r1")}
+	rs := buf[:n]
+	got := goStr(StringFromRunes(rs))
+	nd_assert(got == string(rs), "C05.utf8.fromrunes")
+	nd_reach("C05.utf8.fromrunes")
+}
+
+// string(i) for every 64-bit integer value
+func H_str_fromint() {
+	x := nd_int64("x")
+	got := goStr(StringFromInt64(x))
+	want := "�"
+	if x >= 0 && x <= 0x10FFFF {
+		want = string(rune(x))
+	}
+	nd_assert(got == want, "C05.utf8.fromint")
+	u := nd_uint64("u")
+	gotu := goStr(StringFromUint64(u))
+	wantu := "�"
+	if u <= 0x10FFFF {
+		wantu = string(rune(u))
+	}
+	nd_assert(gotu == wantu, "C05.utf8.fromuint")
+	nd_reach("C05.utf8.fromint")
+}
+
+func tryRunes(f func() []rune) (rs []rune, panicked bool) {
+	defer func() {
+		if e := recover(); e != nil {
+			panicked = true
+		}
+	}()
+	rs = f()
+	return
+}
